@@ -10,6 +10,7 @@ package main
 import (
 	"go/token"
 	"go/types"
+	"regexp"
 	"sort"
 	"strings"
 
@@ -119,6 +120,15 @@ func (fl *Flow) decompose(v ssa.Value, truth bool, out *[]Fact) {
 			if f, ok := mkCmp(x.Op, fl.K.Key(x.X), fl.K.Key(x.Y), truth); ok {
 				*out = append(*out, f)
 				// x != nil for an Extract #0 of a comma-ok form is covered below
+				if f.Op == "==" {
+					// `helper(...) == nil` for an error-returning helper of this package: what holds whenever it returns nil
+					switch {
+					case isNilConst(x.Y):
+						*out = append(*out, fl.summaryFacts(x.X, "nil")...)
+					case isNilConst(x.X):
+						*out = append(*out, fl.summaryFacts(x.Y, "nil")...)
+					}
+				}
 			}
 			return
 		}
@@ -149,6 +159,8 @@ func (fl *Flow) decompose(v ssa.Value, truth bool, out *[]Fact) {
 		op = "true"
 	}
 	*out = append(*out, Fact{op, fl.K.Key(v), ""})
+	// boolean helper of this package: what holds whenever it returns that value
+	*out = append(*out, fl.summaryFacts(v, op)...)
 	// ok-result of a comma-ok type assertion implies the operand is non-nil
 	if ex, ok := v.(*ssa.Extract); ok && truth && ex.Index == 1 {
 		if ta, ok := ex.Tuple.(*ssa.TypeAssert); ok {
@@ -189,6 +201,9 @@ func (fl *Flow) transfer(s FactSet, in ssa.Instruction) {
 	case *ssa.Call:
 		fl.killCall(s, &x.Call)
 		s[Fact{"after", fl.K.Key(x), ""}] = true
+		for _, f := range fl.summaryFacts(x, "all") {
+			s[f] = true
+		}
 	case *ssa.Defer:
 		// deferred call runs at exit; no effect here
 	case *ssa.Go:
@@ -472,4 +487,193 @@ func (m *modSets) implsOf(meth *types.Func) []*ssa.Function {
 	}
 	m.impl[key] = out
 	return out
+}
+
+// ---- call summaries: facts established by a helper of the same package ----
+//
+// Extracting a run of checks into a helper (`if !s.validSignatures(msg) { return }`,
+// `if err := checkQuorum(sig); err != nil { return err }`) must not change any verdict. For a
+// statically resolved callee of the caller's own package the analysis therefore computes,
+// from the callee's own must-facts, what holds (a) whenever it returns true, (b) whenever it
+// returns false, (c) whenever its error result is nil, (d) after every return; these facts
+// are re-expressed in the caller's terms (parameters replaced by the argument keys,
+// callee-local ids made unique) and added where the caller learns the outcome.
+
+type fnSummary struct{ all, ifTrue, ifFalse, ifNil []Fact }
+
+var (
+	summaryCache = map[*ssa.Function]*fnSummary{}
+	summaryBusy  = map[*ssa.Function]bool{}
+	paramRe      = regexp.MustCompile(`\bp(\d+)\b`)
+	localIDRe    = regexp.MustCompile(`@b(\d+)i(\d+)`)
+)
+
+func resetSummaries() {
+	summaryCache = map[*ssa.Function]*fnSummary{}
+	summaryBusy = map[*ssa.Function]bool{}
+}
+
+// summaryFacts returns the summary facts of kind ("true","false","nil","all") of the call that
+// produced v (v is the call itself or an extract of its last result), in the caller's terms.
+func (fl *Flow) summaryFacts(v ssa.Value, kind string) []Fact {
+	var call *ssa.Call
+	switch x := v.(type) {
+	case *ssa.Call:
+		call = x
+	case *ssa.Extract:
+		c, ok := x.Tuple.(*ssa.Call)
+		if !ok || x.Index != c.Type().(*types.Tuple).Len()-1 {
+			return nil
+		}
+		call = c
+	default:
+		return nil
+	}
+	callee := call.Call.StaticCallee()
+	if callee == nil || callee == fl.Fn || callee.Blocks == nil || callee.Synthetic != "" ||
+		funcPkgPath(callee) != funcPkgPath(fl.Fn) || !inModule(funcPkgPath(callee)) {
+		return nil
+	}
+	sum := summarise(fl.P, callee)
+	if sum == nil {
+		return nil
+	}
+	var src []Fact
+	switch kind {
+	case "true":
+		src = sum.ifTrue
+	case "false":
+		src = sum.ifFalse
+	case "nil":
+		src = sum.ifNil
+	case "all":
+		src = sum.all
+	}
+	if len(src) == 0 {
+		return nil
+	}
+	args := call.Call.Args
+	tag := "@~" + callee.Name() + ":b${1}i${2}"
+	subst := func(k string) string {
+		k = localIDRe.ReplaceAllString(k, tag)
+		return paramRe.ReplaceAllStringFunc(k, func(m string) string {
+			var i int
+			for _, ch := range m[1:] {
+				i = i*10 + int(ch-'0')
+			}
+			if i < len(args) {
+				return fl.K.Key(args[i])
+			}
+			return m
+		})
+	}
+	out := make([]Fact, 0, len(src))
+	for _, f := range src {
+		g := Fact{f.Op, subst(f.L), ""}
+		if f.R != "" {
+			g.R = subst(f.R)
+		}
+		if (g.Op == "==" || g.Op == "!=") && g.L > g.R {
+			g.L, g.R = g.R, g.L
+		}
+		out = append(out, g)
+	}
+	return out
+}
+
+func summarise(p *Prog, fn *ssa.Function) *fnSummary {
+	if s, ok := summaryCache[fn]; ok {
+		return s
+	}
+	if summaryBusy[fn] || len(summaryBusy) > 6 {
+		return nil
+	}
+	n := 0
+	for _, b := range fn.Blocks {
+		n += len(b.Instrs)
+	}
+	if n > 400 {
+		summaryCache[fn] = nil
+		return nil
+	}
+	summaryBusy[fn] = true
+	defer delete(summaryBusy, fn)
+	fl := NewFlow(p, fn)
+	res := fn.Signature.Results()
+	last := res.Len() - 1
+	kind := ""
+	if last >= 0 {
+		switch t := res.At(last).Type(); {
+		case types.Identical(t, types.Typ[types.Bool]):
+			kind = "bool"
+		case t.String() == "error":
+			kind = "error"
+		}
+	}
+	var all, ifT, ifF, ifN FactSet
+	meet := func(acc *FactSet, s FactSet) {
+		if *acc == nil {
+			*acc = s.clone()
+			return
+		}
+		for f := range *acc {
+			if !s[f] {
+				delete(*acc, f)
+			}
+		}
+	}
+	with := func(s FactSet, extra []Fact) FactSet {
+		o := s.clone()
+		for _, f := range extra {
+			o[f] = true
+		}
+		return o
+	}
+	for _, r := range returnsOf(fn) {
+		if !fl.Reachable(r.Block()) {
+			continue
+		}
+		facts := fl.At(r)
+		meet(&all, facts)
+		if last < 0 || last >= len(r.Results) {
+			continue
+		}
+		v := retValue(r, last)
+		switch kind {
+		case "bool":
+			switch {
+			case isBoolConst(v, true):
+				meet(&ifT, facts)
+			case isBoolConst(v, false):
+				meet(&ifF, facts)
+			default:
+				var t, f []Fact
+				fl.decompose(v, true, &t)
+				fl.decompose(v, false, &f)
+				meet(&ifT, with(facts, t))
+				meet(&ifF, with(facts, f))
+			}
+		case "error":
+			switch {
+			case isNilConst(v):
+				meet(&ifN, facts)
+			case knownNonNilError(v):
+			default:
+				extra := []Fact{eqFact(fl.K.Key(v), "nil")}
+				extra = append(extra, fl.summaryFacts(v, "nil")...)
+				meet(&ifN, with(facts, extra))
+			}
+		}
+	}
+	list := func(s FactSet) []Fact {
+		var out []Fact
+		for f := range s {
+			out = append(out, f)
+		}
+		sort.Slice(out, func(i, j int) bool { return out[i].String() < out[j].String() })
+		return out
+	}
+	sum := &fnSummary{all: list(all), ifTrue: list(ifT), ifFalse: list(ifF), ifNil: list(ifN)}
+	summaryCache[fn] = sum
+	return sum
 }
